@@ -46,6 +46,23 @@ def package_steps(repo):
             # a module-level generator whose leading parameters are bound with functools.partial: what the flow sees is a
             # callable of the single parameter `package`
             out.append(fi)
+    # a generator with the same signature that another step delegates to (`yield from passthrough(package)`) and that is not itself
+    # handed out is a piece of that step, not a step
+    helpers = set()
+    for fi in out:
+        scope = fi.parent.node if isinstance(fi.parent, FuncInfo) else fi.module.tree
+        returned = {n.id for r in ast.walk(scope) if isinstance(r, ast.Return) and r.value is not None
+                    for n in ast.walk(r.value) if isinstance(n, ast.Name)} if isinstance(fi.parent, FuncInfo) else set()
+        if fi.node.name in returned:
+            continue
+        for other in out:
+            if other is fi or other.parent is not fi.parent or other.module is not fi.module:
+                continue
+            if any(isinstance(c, ast.Call) and isinstance(c.func, ast.Name) and c.func.id == fi.node.name
+                   and len(c.args) == 1 and isinstance(c.args[0], ast.Name) and c.args[0].id == 'package'
+                   for c in ast.walk(other.node)):
+                helpers.add(fi.qualname)
+    out = [f for f in out if f.qualname not in helpers]
     return sorted(out, key=lambda f: f.qualname)
 
 
